@@ -8,7 +8,7 @@ import zlib
 import common
 import blf
 
-UNKNOWN_TYPES = [0, 26, 27, 28, 52, 53, 108, 116, 117, 132, 255, 256, 0x7fffffff, 0xffffffff]
+UNKNOWN_TYPES = [0, 26, 27, 28, 52, 53, 108, 116, 117, 132, 255, 256, 0x10001, 0x20041, 0x80000001, 0x7fffffff, 0xffffffff]    # incl. codes whose low 16 / low 8 bits are assigned codes
 UNKNOWN_SIZES = [16, 17, 18, 19, 20, 31, 32, 33, 100, 4095, 4096]
 
 
